@@ -818,7 +818,16 @@ class ModuleVistor(NodeVisitor):
         elif isinstance(target, ast.Starred):
             self._handleUnpackingTarget(target.value, lineno)
         else:
+            previous = self.builder.currentAttr
+            self.builder.currentAttr = None
             self._handleAssignment(target, None, None, lineno)
+            attr = self.builder.currentAttr
+            if attr is None:
+                self.builder.currentAttr = previous
+            elif isinstance(attr, model.Attribute):
+                # The name is bound to an element of the unpacked value, which we don't know:
+                # the value of a previous assignment must not be taken for it.
+                attr.value = None
 
     def visit_AnnAssign(self, node: ast.AnnAssign) -> None:
         annotation = unstring_annotation(node.annotation, self.builder.current)
